@@ -885,6 +885,8 @@ impl<'tcx> Dump<'tcx> {
             v.push(("impl_self".to_string(), js(format!("{}", self_ty))));
             let sti = self.ty(self_ty, env);
             v.push(("impl_self_ty".to_string(), J::U(sti as u128)));
+            // #[automatically_derived]: the impl was written by a derive macro
+            v.push(("derived".to_string(), J::B(tcx.is_automatically_derived(imp))));
             if let Some(tr) = tcx.impl_opt_trait_ref(imp) {
                 let tr = tr.instantiate_identity().skip_norm_wip();
                 v.push(("impl_trait".to_string(), js(self.def_name(tr.def_id))));
